@@ -29,6 +29,14 @@
   in the other order. The run of a schedule with overlaps is therefore a SET of outcomes (`runI`); the
   correspondence check is a monitor: the real executor's observation must be one of them.
 
+  Two repairs (`Cfg`, Model/ExecTask) changed what an overlap can do; the code before them is `overlapLegacyCfg`:
+  * `killClaimsEntry` — handleKillEvent removes the entry from activeTasks in the critical section that looks it
+    up: the look-up part of a KILL that finds the task makes it inactive at once (before: only `whole kill`, the
+    goroutine, did), so the look-up of any later request — a second KILL in particular — is refused;
+  * `startOwnsCmd` — startBasicTask keeps the command it built in a local variable: `exec` and `reap` no longer
+    read t.taskCmd and cannot find nil; a KILL in between still clears the field (the child is then started for a
+    task that has reported its terminal status: finding `basic_kill_spares_child`, Kill signals and fences nothing).
+
   Granularity (modelled, not verified): one part is atomic — in particular the four reads of t.taskCmd in
   ensureBasicTaskKilled (a STOP does not wait: `stopDoesNotWait` in Props/C17) and the handful of statements of
   basicTaskBase.Kill. Not described: two overlapping requests that both start a child, and an overlapping KILL of
@@ -65,8 +73,8 @@ inductive Part where
   | look (op : Op)     -- the handler: look the task up; refuse (notask / ignored), or start the goroutine
   | whole (op : Op)    -- the goroutine serves the request in one piece
   | prep (h : Bool)    -- startBasicTask: t.taskCmd = prepareTaskCmd(…)
-  | exec (h : Bool)    -- startBasicTask: StdoutPipe/StderrPipe, t.taskCmd.Start()
-  | reap (h : Bool)    -- startBasicTask: go func() { taskCmd := t.taskCmd; taskCmd.Wait() … }; the answer
+  | exec (h : Bool)    -- startBasicTask: StdoutPipe/StderrPipe, Start() (before the repair: through t.taskCmd)
+  | reap (h : Bool)    -- startBasicTask: go func() { taskCmd.Wait() … } (before: `taskCmd := t.taskCmd` first); the answer
   deriving DecidableEq, Repr, Inhabited
 
 /-- the parts of the handling of `op` for a task of kind `k`: the look-up, then the goroutine -/
@@ -103,10 +111,17 @@ inductive PStep where
   | halt (r : Res)
   deriving Repr, Inhabited
 
+/-- The task's state after a look-up that found it: the repaired handleKillEvent takes the entry out of
+    activeTasks in the critical section of its look-up; every other request (and the KILL handler before the
+    repair) leaves it in. -/
+def claim (c : Cfg) (s : St) (op : Op) : St :=
+  if c.killClaimsEntry && op = .kill then { s with active := false } else s
+
 def pstep (c : Cfg) (s : St) : Part → PStep
   | .look op =>
     if !s.loop then .next s (some .dead) true
-    else if s.active then .next s none false
+    else if s.active then
+      .next (claim c s op) none false      -- found: the goroutine is started
     else
       let (s', r) := step c s op           -- no active task: notask / ignored (before the repair: the loop ends)
       .next s' (some r) true
@@ -115,11 +130,11 @@ def pstep (c : Cfg) (s : St) : Part → PStep
     if r.halts then .halt r else .next s' (some r) false
   | .prep _ => if s.kind.basicLike then .next (prepS s) none false else .next s none false
   | .exec h =>
-    if !s.cmd then .halt (.crash .startBasicTask)                         -- t.taskCmd.StdoutPipe() on nil
+    if !s.cmd && !c.startOwnsCmd then .halt (.crash .startBasicTask)      -- t.taskCmd.StdoutPipe() on nil
     else if s.beh.startFails then .next s (some (spawnAnswer h true)) true
     else .next (execS s) none false
   | .reap h =>
-    if !s.cmd then .halt (.crash .startBasicTask)                         -- taskCmd := t.taskCmd; taskCmd.Wait() on nil
+    if !s.cmd && !c.startOwnsCmd then .halt (.crash .startBasicTask)      -- taskCmd := t.taskCmd; taskCmd.Wait() on nil
     else .next s (some (spawnAnswer h false)) false
 
 /-- Two requests in flight: what is left of each and the answers given so far. -/
